@@ -78,7 +78,7 @@ def gen_case(rng):
             plain, _, _ = c09.gen_journal(rng)
             suffix = ".journal"
             if cont == "tar":
-                data = world.to_tar([("m" + suffix, plain, 1600000000)], ("ustar", "gnu", "pax")[variant % 3])
+                data = world.to_tar([(world.member_path(rng, "m" + suffix), plain, 1600000000)], ("ustar", "gnu", "pax")[variant % 3])
             else:
                 data, _ = world.random_container(rng, cont, plain, 1600000000, "m" + suffix)
             plain_len = len(plain)
@@ -107,7 +107,7 @@ def gen_case(rng):
             if len(bad) > 2_000_000:
                 bad = bad[:2_000_000]
             if cont == "tar":
-                data = world.to_tar([("m" + suffix, bad, 1600000000)], ("ustar", "gnu", "pax")[variant % 3])
+                data = world.to_tar([(world.member_path(rng, "m" + suffix), bad, 1600000000)], ("ustar", "gnu", "pax")[variant % 3])
             else:
                 data, _ = world.random_container(rng, cont, bad, 1600000000, "m" + suffix)
             plain_len = len(bad)
